@@ -32,7 +32,7 @@ def r2(cx, h):
     # the `?` on from_slice(..).map_err(..): find the Try::branch fed by it and its discriminant switch
     sl = Slice(body, du)
     from vlib.cfg import question_mark_edges
-    ok_edge, err_edge = question_mark_edges(body, du, h.from_slice)
+    ok_edge, err_edge = question_mark_edges(body, du, h.parse_done)
     if ok_edge is None: raise AnchorMissing("handle: `?` on serde_json::from_slice not found")
     ru_blocks = {t.bb for t in h.read_untils}
     disp_blocks = {t.bb: t for t in h.dispatch}
